@@ -52,7 +52,11 @@ func tableRemove(L *LState) int {
 
 func tableConcat(L *LState) int {
 	tbl := L.CheckTable(1)
-	sep := LString(L.OptString(2, ""))
+	sep := emptyLString
+	if L.Get(2) != LNil {
+		// luaL_optlstring: a separator that is given is checked like a string argument, so a number converts
+		sep = LString(L.CheckString(2))
+	}
 	i := L.OptInt(3, 1)
 	j := L.OptInt(4, tbl.Len())
 	if L.GetTop() == 3 {
